@@ -7,6 +7,8 @@ pub mod c03;
 pub mod c04;
 pub mod c06;
 pub mod c11;
+pub mod c14;
+pub mod c14b;
 pub mod c11d;
 
 thread_local! {
@@ -40,6 +42,7 @@ pub fn run(id: &str, tier: Tier) -> i32 {
         "C04" => c04::run(tier),
         "C06" => c06::run(tier),
         "C11" => c11::run(tier),
+        "C14" => c14::run(tier),
         _ => {
             eprintln!("MACHINERY: no check for {id}");
             2
@@ -56,6 +59,7 @@ pub fn replay(id: &str, file: &serde_json::Value) -> i32 {
         "C04" => c04::replay,
         "C06" => c06::replay,
         "C11" => c11::replay,
+        "C14" => c14::replay,
         _ => {
             eprintln!("MACHINERY: no replay for {id}");
             return 2;
